@@ -140,10 +140,15 @@ Section NotePerf.
   Definition np_decode (l : list Z) (_ : list npevent) : option npevent :=
     i0 <- py_nth l 0 ;; i1 <- py_nth l 1 ;; i2 <- py_nth l 2 ;;
     i3 <- py_nth l 3 ;; i4 <- py_nth l 4 ;; i5 <- py_nth l 5 ;;
-    Some ((EV_TIME_SHIFT, i0 * np_shift_per c + i1),
-          (EV_NOTE_ON, i2 + np_min_pitch c),
-          (EV_VELOCITY, i3 + 1),
-          (EV_DURATION, i4 * np_dur_per c + i5 + 1)).
+    let ts := i0 * np_shift_per c + i1 in
+    let pitch := i2 + np_min_pitch c in
+    let vel := i3 + 1 in
+    let dur := i4 * np_dur_per c + i5 + 1 in
+    (* the PerformanceEvent constructor validates its value (ValueError) *)
+    if (0 <=? ts) && (K_PERF_MIN_PITCH <=? pitch) && (pitch <=? K_PERF_MAX_PITCH)
+       && (1 <=? vel) && (vel <=? K_MAX_NUM_VELOCITY_BINS) && (1 <=? dur)
+    then Some ((EV_TIME_SHIFT, ts), (EV_NOTE_ON, pitch), (EV_VELOCITY, vel), (EV_DURATION, dur))
+    else None.
 
   Definition np_shift_of (e : npevent) : Z := let '(ts, _, _, _) := e in snd ts.
   Definition np_dur_of (e : npevent) : Z := let '(_, _, _, dur) := e in snd dur.
